@@ -1,7 +1,8 @@
 """C11 - The dictionary view reports exactly what the profile says (structural part).
 
 The rules locate their subjects by role (the collection tested for membership of a block path, the attribute that is
-compared with / assigned `hash(self.tree)`, the tree appended to `self.tree.children`, the bound method that is called)
+compared with / assigned the cache key, the tree appended to `self.tree.children`, the parameter whose `.tree` is read, the bound
+method that is called)
 and evaluate them on facts that hold at a program point (`_facts_at`: dominating branch edges with inlined tests,
 conditional expressions, short-circuit operands, comprehension filters), so that spelling, temporaries, early returns,
 inverted tests, conditional expressions instead of if/else, hoisted constants and extracted helpers do not matter.
@@ -31,7 +32,15 @@ profiles.  The only "evaluation" is `const_eval` of constant expressions / modul
            related to the cache attribute by its definitions; the stored value's constructor found by substituting
            definitions), 6 (the initial value of the hash attribute is a constant).  Lemma L2: `hash(x)` is an `int`, and a
            constant that is not a number (None, a string) compares unequal to every int - so such an initial value can
-           never satisfy `self.<hash attr> == hash(self.tree)`.
+           never satisfy `self.<hash attr> == hash(self.tree)`.  The key terms (what is stored into the key attribute, what it is
+           compared with) are built by substituting definitions (3): single-definition temporaries, assignment expressions
+           `(x := E)`, and - by argument binding - the body `return E` of an expression helper the normaliser left as a function.
+           `cache key covers the whole tree` judges those terms structurally: hash(self.tree) covers the tree (lemma L6); a term
+           in which every mention of the profile goes through a projection of the lark Tree API that provably drops part of
+           the tree - scan_values (lemma L5), len(..), id(..), .data / .meta of the root, hash()/id() of the profile object
+           itself when its class defines no __hash__/__eq__ (1) - or that does not mention the profile at all is a violation;
+           every other term is undecided.  The projections are a fixed vocabulary of the library, each with a one-line reason
+           (`_LOSSY_WHY`); no term is evaluated.
   R3       1 (class attributes bound to helpers, resolved callees, argument binding), 3 (the `Tree(..)` term a helper
            appends to self.tree.children is built by substituting definitions and compared structurally with the grammar
            production's kept symbols), 5 (the alternatives of a conditional callee `self.a if t else self.b` /
@@ -73,6 +82,18 @@ profiles.  The only "evaluation" is `const_eval` of constant expressions / modul
            path at an occurrence of S can cut inside a component.  Violated only when every definition of the cut name is a
            composed text or a constant and the cut's separator is a constant related to a separator of the composition;
            otherwise undecided.  (Cutting by position - `text[:-len(last) - 1]` - is not affected.)
+  R9       attaching a block: the place gets a node of its own, the block given stays as it was.  1 (the parameters whose `.tree`
+           is read - located by role in every function of the module; additions to a children list that hangs off self:
+           append / extend / insert / `+=` / item store; attribute and item stores, list-mutator calls and setattr), 3 (flow-
+           sensitive reaching definitions relate an added value / a written object to `<parameter>.tree`, `.tree.children`,
+           `.tree.data`; the block is followed into package callees by argument binding - a may-alias judgement on access
+           paths, copies made by a call cut it), 1 (ConfigBlock.__init__ stores `tree` as an attribute, so `<block>.tree` denotes
+           one object per block).  Lemma L7: the name of a block node is the name of the place it is attached at; the grammar has
+           the same kind of block at several places (client/server, transform-x86/transform-x64) and one block object may be
+           given to several places, so a node shared by the places can carry only one of their names.  Violated when the added
+           value may be the given block's own root node, or when a write goes into `<block>.tree` / its children list;
+           renaming the given node alone is only reported together with the aliasing; an added value whose origin is not a call
+           (a fresh construction) and not the given node is undecided.
 """
 
 from __future__ import annotations
@@ -369,8 +390,24 @@ def _expand(ctx, f, e, depth=0):
     """`e` with the single-definition temporaries of f substituted and every call of an *expression helper* of the package
     (a function outside the baseline vocabulary whose body is `return E`, possibly after single-definition temporaries, that
     the normaliser left as a function - e.g. because E contains a lambda) replaced by E with the arguments bound to the
-    parameters.  The term is only built, never evaluated."""
-    e = _inl(f, e)
+    parameters.  An assignment expression `(x := E)` stands for E, and so does a local whose only definition it is.  The term is
+    only built, never evaluated."""
+
+    class _Walrus(ast.NodeTransformer):
+        def visit_NamedExpr(self, node):
+            return self.visit(node.value)
+
+        def visit_Name(self, node):
+            if isinstance(node.ctx, ast.Load) and node.id not in params(f.node):
+                defs = assignments_to(f.node, node.id)
+                if len(defs) == 1 and isinstance(defs[0][0], ast.NamedExpr) and not any(isinstance(x, ast.Name) and x.id == node.id for x in ast.walk(defs[0][1])):
+                    return self.visit(copy.deepcopy(defs[0][1]))
+            return node
+
+        def visit_Lambda(self, node):
+            return node
+
+    e = _inl(f, _Walrus().visit(copy.deepcopy(_inl(f, e))))
     if depth > 3:
         return e
     base = _baseline_funcs(f.module.name)
@@ -417,7 +454,7 @@ def _expand(ctx, f, e, depth=0):
 
 def _defines(ctx, cname, meth, _seen=()):
     """Does class `cname` of c2profile.py (or a base class written in that module) define method `meth`?"""
-    if cname in _seen or not ctx.repo.has_func(f"{MOD}.{cname}.{meth}") and cname not in ctx.repo.module(MOD).classes:
+    if not cname or cname in _seen or cname not in ctx.repo.module(MOD).classes:
         return False
     if ctx.repo.has_func(f"{MOD}.{cname}.{meth}") or meth in ctx.repo.class_attrs(f"{MOD}.{cname}"):
         return True
@@ -449,8 +486,7 @@ def _key_class(ctx, f, k):
             parent[id(c)] = n
     selfs = [n for n in ast.walk(k) if isinstance(n, ast.Name) and n.id == "self"]
     if not selfs:
-        if any(isinstance(n, (ast.Name, ast.Attribute)) and isinstance(getattr(n, "ctx", None), ast.Load) and not (isinstance(n, ast.Name) and n.id in ("hash", "tuple", "len", "id", "str", "repr", "frozenset"))
-               for n in ast.walk(k) if not isinstance(parent.get(id(n)), ast.Attribute)):
+        if any(isinstance(n, ast.Name) and n.id not in ("hash", "tuple", "len", "id", "str", "repr", "frozenset") for n in ast.walk(k)):
             return None  # some other name (a parameter, a module-level object): not understood
         return ("foreign", ["the term does not mention the profile"])
     why = []
@@ -607,12 +643,19 @@ def run(ctx):
         "differs from the parsed one; the decoder the list-valued entries go through appends exactly one byte value per character / escape, consumes "
         "exactly the escape and accepts what the encoder emits (imported C12.R2/R3) - otherwise `decoded to bytes` fails (or as_dict raises); "
         "a block path text made by joining its components is never searched for the separator to take components off again (a variant name "
-        "is an arbitrary STRING and may contain the separator, so the path state must stay a sequence).  Devices: syntax-tree queries, resolved callees and who-may-write checks, CFG dominance "
+        "is an arbitrary STRING and may contain the separator, so the path state must stay a sequence); the cache key of as_dict - the term stored into / compared with the key "
+        "attribute, with temporaries, assignment expressions and expression helpers substituted - covers the whole tree (hash(self.tree); a key made of the leaves only, a count, an "
+        "identity or the root's name does not see some modification and the stale view stays); a builder method that is given a block adds a node of its own to the parent (not the "
+        "block's root node, which would be one object at every place the block is attached to and can carry only one place name) and writes nothing into the given block's tree.  Devices: syntax-tree queries, resolved callees and who-may-write checks, CFG dominance "
         "and reachability, facts of dominating branch edges with substituted temporaries (kept symbolic), structural comparison of the "
         "Tree(..) terms built in code with grammar productions, case analysis over the literals the code dispatches on, constant folding "
         "of constant tables.  No code of the package is executed or interpreted on data."
     )
     rep.not_decided = ["exactness and order of reported values for all profiles", "the token-stream stack machine's behaviour on variants",
+                       "a cache key that is neither hash(self.tree) nor made through one of the projections the rule knows to be lossy (a digest of the rendered text, "
+                       "a generator over iter_subtrees, a modification counter) is undecided; hash collisions of a complete key are not considered",
+                       "R9 judges the builder methods that are given a block (a parameter whose .tree is read); sharing of the children *list* between block and parent "
+                       "(so that later additions to an attached block show in the profile) is the package's design and is not judged; a node added to the parent that is neither a call result nor the given block's root node is undecided",
                        "as_dict hands out its cache by reference (observation, not armed: the property speaks of modifications of the profile)",
                        "forms the rules cannot locate are reported as undecided: a list-valued path collection that is not a constant table, a cache "
                        "that is not a hash-keyed pair of self attributes, builder helpers whose appended Tree(..) term cannot be read off, "
@@ -629,7 +672,11 @@ def run(ctx):
                         "CPython's repr(bytes)); `value_to_string` is the literal encoder of the package (located by its qualified name)",
                         "R7: decided by rules/c12.py r2 and r3 (their trusted base applies: reference escape table csverif.tables.ESCAPES, the lemmas of that module)",
                         "lemma L3: a production consisting of one nonterminal writes no token; `?x: y` / `_x: y` leave no node of their own in the parse tree (lark)",
-                        "lemma L4: S.join(parts) does not determine parts when a part may contain S; variant names are arbitrary STRING tokens"]
+                        "lemma L4: S.join(parts) does not determine parts when a part may contain S; variant names are arbitrary STRING tokens",
+                        "lemma L5 (lark): Tree.scan_values(pred) yields only non-Tree children that satisfy pred, never a Tree node or its name; statements without an argument are Tree nodes without a token child",
+                        "lemma L6 (lark): Tree.__hash__ is hash((data, tuple(children))) and Tree.__eq__ compares data and children, recursively - hash(self.tree) depends on every node name and every token, in order",
+                        "lemma L7: a block node carries the name of the place it is attached at; the grammar has the same kind of block at several places and a builder call sequence may give one block object to several places",
+                        "len(x) / id(x) / hash() of an object whose class defines no __hash__ do not change when the object is modified in place (CPython data model)"]
     g = Grammar(ctx.repo)
     r1(ctx, g)
     r2(ctx)
@@ -650,6 +697,7 @@ def run(ctx):
     ctx.import_obligations("R7", c12.r2)
     ctx.import_obligations("R7", c12.r3)
     r8(ctx)
+    r9(ctx)
 
 
 # ============================================================================================================= R1
@@ -768,16 +816,28 @@ def r2(ctx):
     stores = _self_stores(f.node)
     # roles: the hash attribute is the self attribute that is assigned a hash(..) / compared with hash(self.tree); the
     # cache attribute is the other self attribute as_dict stores (and returns)
-    hash_attrs = {a for s, a, v in stores if v is not None and _is_call(_inl(f, v), "hash")}
+    # (the key may be computed by an expression helper the normaliser left as a function: `_expand` substitutes its body)
+    def X(e):
+        return _expand(ctx, f, e)
+
+    compares = []  # (self attribute, the term it is compared with for equality)
+    for n in body_walk(f.node):
+        if isinstance(n, ast.Compare) and len(n.ops) == 1 and isinstance(n.ops[0], (ast.Eq, ast.NotEq)):
+            l, r = _inl(f, n.left), _inl(f, n.comparators[0])
+            for a, b in ((l, r), (r, l)):
+                if isinstance(a, ast.Attribute) and dotted(a.value) == "self" and not (isinstance(b, ast.Constant)):
+                    compares.append((a.attr, X(b)))
+    hash_attrs = {a for s, a, v in stores if v is not None and _is_call(X(v), "hash")}
     if not hash_attrs:
-        for n in body_walk(f.node):
-            if isinstance(n, ast.Compare) and len(n.ops) == 1 and isinstance(n.ops[0], (ast.Eq, ast.NotEq)):
-                l, r = _inl(f, n.left), _inl(f, n.comparators[0])
-                for a, b in ((l, r), (r, l)):
-                    if _is_call(b, "hash") and isinstance(a, ast.Attribute) and dotted(a.value) == "self":
-                        hash_attrs.add(a.attr)
-    cache_attrs = {a for s, a, v in stores if a not in hash_attrs}
+        hash_attrs = {a for a, k in compares if _is_call(k, "hash")}
     returned = {r.value.attr for r in rets if isinstance(r.value, ast.Attribute) and dotted(r.value.value) == "self"}
+    if not hash_attrs:
+        # a key that is not a hash(..) at all: as_dict stores two self attributes, one of them is the dictionary it returns,
+        # the other one - compared for equality with a freshly computed term - is the key
+        stored_attrs = {a for s, a, v in stores}
+        if len(stored_attrs) == 2 and len(stored_attrs & returned) == 1 and (stored_attrs - returned) <= {a for a, _k in compares}:
+            hash_attrs = stored_attrs - returned
+    cache_attrs = {a for s, a, v in stores if a not in hash_attrs}
     if len(cache_attrs) > 1 and cache_attrs & returned:
         cache_attrs &= returned
     if len(hash_attrs) != 1 or len(cache_attrs) != 1:
@@ -787,9 +847,24 @@ def r2(ctx):
     sets_h = [(s, v) for s, a, v in stores if a == HA]
     sets_c = [(s, v) for s, a, v in stores if a == CA]
 
+    # the key terms: what is stored into the key attribute and what the key attribute is compared with
+    key_stored = [(s, X(v)) for s, v in sets_h if v is not None]
+    key_compared = [k for a, k in compares if a == HA]
+
     def fresh(atom):
+        """A comparison of the stored key with a freshly computed key: `self.<key> == hash(self.tree)`, or - for another key
+        function - equality with the very term that is stored into the key attribute (whether that key function says enough
+        about the tree is the obligation `cache key covers the whole tree`, not a matter of control flow)."""
         s = _eq_sides(atom)
-        return bool(s) and any(dotted(a) == f"self.{HA}" and _is_tree_hash(b) for a, b in (s, s[::-1]))
+        for a, b in ((s, s[::-1]) if s else ()):
+            if dotted(a) == f"self.{HA}":
+                k = X(b)
+                kc = _key_class(ctx, f, k)
+                if kc is not None and kc[0] == "whole":
+                    return True
+                if (kc is None or kc[0] == "lossy") and any(src(k) == src(t) for _s, t in key_stored):
+                    return True
+        return False
 
     fresh_edges = []
     for n, s in cfg.stmt.items():
@@ -890,8 +965,6 @@ def r2(ctx):
         why = []
         if not all(any(dotted(n) == TREE for n in ast.walk(_inl(f, ast.Tuple(elts=list(c.args) + [k.value for k in c.keywords], ctx=ast.Load())))) for c in walk_calls):
             why.append("the walk is not over self.tree")
-        if not all(v is not None and _is_tree_hash(_inl(f, v)) for _s, v in sets_h):
-            why.append("the stored hash is not hash(self.tree): " + ", ".join(src(v) for _s, v in sets_h))
         wn = [cfg.node(fv.stmt_of(c)) for c in walk_calls if cfg.has(fv.stmt_of(c))]
         for n in hn + cn:
             if not any(cfg.dominates(w, n) for w in wn):
@@ -907,7 +980,24 @@ def r2(ctx):
                 if v is None or not (names_in(_inl(f, v, stop=coll)) & coll):
                     why.append(f"the cached value `{src(v)}` is not made from the collected properties ({sorted(coll)})")
         ctx.ob("R2", "AGREE", f, "hash and cache stored together after the walk", not why,
-               "hash(self.tree) and the walked properties of self.tree are stored together, after the walk" if not why else "; ".join(why))
+               "the cache key and the walked properties of self.tree are stored together, after the walk" if not why else "; ".join(why))
+    # the key says everything about the tree: two different trees must (up to hash collisions) have different keys, otherwise
+    # a modification that the key does not see leaves the stale view in place
+    terms = [("stored", k) for _s, k in key_stored] + [("compared", k) for k in key_compared]
+    text = "cache key covers the whole tree"
+    if not terms:
+        ctx.undecided("R2", "AGREE", f, text, f"no term stored into / compared with self.{HA} located")
+    else:
+        judged = [(role, k, _key_class(ctx, f, k)) for role, k in terms]
+        bad = [(role, k, kc) for role, k, kc in judged if kc is not None and kc[0] != "whole"]
+        unknown = sorted({f"{role}: {src(k)[:70]}" for role, k, kc in judged if kc is None})
+        if bad:
+            ctx.ob("R2", "AGREE", f, text, False, "; ".join(sorted({f"the {role} key `{src(k)[:90]}` does not determine the tree: " + "; ".join(_LOSSY_WHY.get(w, w) for w in kc[1]) for role, k, kc in bad}))
+                   + " - a modification the key does not see (as_text() shows it) leaves the cached view in place")
+        elif unknown:
+            ctx.undecided("R2", "AGREE", f, text, f"cannot tell whether the key determines the whole tree (names of all nodes and all tokens, in order): {unknown}")
+        else:
+            ctx.ob("R2", "AGREE", f, text, True, f"the key is hash(self.tree) at all {len(terms)} places (lark hashes the name and the children of every node)")
     # a new profile starts without a cached dictionary: the initial hash cannot equal a hash
     init = ctx.repo.func(f"{MOD}.C2Profile.__init__")
     iv = [v for s, a, v in _self_stores(init.node) if a == HA]
@@ -1574,3 +1664,151 @@ def _all_seps(ctx, scope, seeds):
             got = _composed(ctx, h, n, {}) if isinstance(n, ast.Call) else None
             out |= got or set()
     return out
+
+
+# ============================================================================================================= R9
+def _block_params(ctx, f):
+    """Parameters of f (not self/cls) that stand for a block: some `X.tree` in f has the parameter among the origins of X."""
+    ps = params(f.node)
+    own = ps[0] if f.cls and ps and ps[0] in ("self", "cls") else None
+    out = set()
+    for n in body_walk(f.node):
+        if isinstance(n, ast.Attribute) and n.attr == "tree" and isinstance(strip_cast(n.value), ast.Name):
+            for o in reaching_origins(ctx, f, n.value, n):
+                if isinstance(o, ast.Name) and o.id in ps and o.id != own:
+                    out.add(o.id)
+    return out
+
+
+def _attach_scan(ctx, f, rooted, found, seen, depth=0):
+    """Look at function f in which the parameters `rooted` (name -> "block" | "node" | "kids") stand for a block that is given
+    to f / the root node of its tree / the children list of that node.  Records in found[f.fq]: the values f adds to a
+    children list of self (classified as the given block's own root node, a fresh construction, or unknown), the writes that
+    go into the given block's tree, and follows the block into package callees by argument binding."""
+    rec = found.setdefault(f.fq, {"f": f, "alias": [], "fresh": 0, "unknown": [], "mut": [], "renames": []})
+    fv = FuncView.of(f.node)
+
+    def kinds(e, at, d=0):
+        e = strip_cast(e) if e is not None else None
+        out = set()
+        if e is None or d > 8:
+            return out
+        if isinstance(e, ast.Name):
+            for o in reaching_origins(ctx, f, e, at):
+                if isinstance(o, ast.Name):
+                    if o.id in rooted and o.id in params(f.node):
+                        out.add(rooted[o.id])
+                elif isinstance(o, ast.expr) and o is not e:
+                    out |= kinds(o, o if fv.stmt_of(o) is not None else at, d + 1)
+        elif isinstance(e, ast.Attribute):
+            for k in kinds(e.value, at, d + 1):
+                nxt = {("block", "tree"): "node", ("node", "children"): "kids", ("node", "data"): "name"}.get((k, e.attr))
+                if nxt:
+                    out.add(nxt)
+        elif isinstance(e, ast.IfExp):
+            out = kinds(e.body, at, d + 1) | kinds(e.orelse, at, d + 1)
+        elif isinstance(e, ast.NamedExpr):
+            out = kinds(e.value, at, d + 1)
+        return out
+
+    def text(n):
+        return src(fv.stmt_of(n) or n)[:70]
+
+    # values added to a children list that hangs off self
+    def own_children(r):
+        d = dotted(_inl(f, r)) or ""
+        return d.startswith("self.") and d.endswith(".children")
+
+    added = [(c, x) for c, _r, x in _appended(f, lambda d: bool(d) and d.startswith("self.") and d.endswith(".children"))]
+    for c in fn_calls(f.node):
+        if isinstance(c.func, ast.Attribute) and c.func.attr == "insert" and len(c.args) == 2 and own_children(c.func.value):
+            added.append((c, c.args[1]))
+    for s in statements(f.node):
+        if isinstance(s, ast.Assign):
+            for t in s.targets:
+                if isinstance(t, ast.Subscript) and not isinstance(t.slice, ast.Slice) and own_children(t.value):
+                    added.append((s, s.value))
+    for at, x in added:
+        ks = kinds(x, at)
+        if "node" in ks:
+            rec["alias"].append(text(at))
+        elif all(isinstance(o, ast.Call) for o in reaching_origins(ctx, f, strip_cast(x), at)):
+            rec["fresh"] += 1
+        else:
+            rec["unknown"].append(text(at))
+    # writes into the tree of the block given
+    for n in body_walk(f.node):
+        if isinstance(n, (ast.Assign, ast.AugAssign, ast.AnnAssign, ast.Delete)):
+            tgts = n.targets if isinstance(n, (ast.Assign, ast.Delete)) else [n.target]
+            for t in tgts:
+                for tt in (t.elts if isinstance(t, (ast.Tuple, ast.List)) else [t]):
+                    if isinstance(tt, ast.Attribute):
+                        base = kinds(tt.value, n)
+                        if ("block" in base and tt.attr == "tree") or ("node" in base and tt.attr == "children"):
+                            rec["mut"].append(text(n))
+                        elif "node" in base and tt.attr == "data":
+                            rec["renames"].append(text(n))
+                    elif isinstance(tt, ast.Subscript) and "kids" in kinds(tt.value, n):
+                        rec["mut"].append(text(n))
+        elif isinstance(n, ast.Call):
+            if isinstance(n.func, ast.Attribute) and n.func.attr in _LIST_MUTATORS and "kids" in kinds(n.func.value, n):
+                rec["mut"].append(text(n))
+            elif _is_call(n, "setattr") and isinstance(n.func, ast.Name) and len(n.args) == 3:
+                base, name = kinds(n.args[0], n), _c(_inl(f, n.args[1]))
+                if ("block" in base and name == "tree") or ("node" in base and name == "children") or (base & {"block", "node"} and not isinstance(name, str)):
+                    rec["mut"].append(text(n))
+                elif "node" in base and name == "data":
+                    rec["renames"].append(text(n))
+            # the block handed on to a function of the package
+            cal = ctx.rs.resolve_call(f, n)
+            h = cal.func if cal.kind == "func" else None
+            if h is not None and h.module.name == f.module.name and depth < 4:
+                method = bool(h.cls) and isinstance(n.func, ast.Attribute)
+                for q, a in bind_args(n, h.node, skip_self=method).items():
+                    for k in (kinds(a, n) if a is not None else set()) - {"name"}:
+                        if (h.fq, q, k) not in seen:
+                            seen.add((h.fq, q, k))
+                            _attach_scan(ctx, h, {q: k}, found, seen, depth + 1)
+
+
+# list methods that change the list they are called on
+_LIST_MUTATORS = {"append", "extend", "insert", "pop", "remove", "clear", "sort", "reverse", "__setitem__", "__delitem__", "__iadd__"}
+
+
+def r9(ctx):
+    """Attaching a block to a parent: the place gets a node of its own and the block that is given stays as it was.  The name of
+    a block node is the name of the *place* (client / server, transform-x86 / transform-x64 ...), and the grammar has the same
+    kind of block at several places; a builder call sequence may hand one block object to several places.  If the node stored
+    in the parent is the block's own root node, all those places hold one object and the name written last is the name of all
+    of them; if attaching changes the statements of the block, the second place gets other statements than the first - in both
+    cases the built profile is not the profile the same calls describe when written as text."""
+    where = f"{MOD}.py::ConfigBlock"
+    stored = ctx.repo.has_func(f"{MOD}.ConfigBlock.__init__") and any(a == "tree" for _s, a, _v in _self_stores(ctx.repo.func(f"{MOD}.ConfigBlock.__init__").node))
+    found, seen = {}, set()
+    for f in ctx.repo.module(MOD).funcs.values():
+        for p in sorted(_block_params(ctx, f)):
+            if (f.fq, p, "block") not in seen:
+                seen.add((f.fq, p, "block"))
+                _attach_scan(ctx, f, {p: "block"}, found, seen)
+    sites = sum(len(r["alias"]) + r["fresh"] + len(r["unknown"]) for r in found.values())
+    if not stored or not sites:
+        ctx.undecided("R9", "ALIAS", where, "a block is attached through a node of its own", "no builder method that is given a block (a parameter whose `.tree` is read) and adds a node to self.tree.children located"
+                      if stored else "ConfigBlock.__init__ does not store the block's tree as an attribute: cannot tell which object `<block>.tree` denotes")
+        if not stored:
+            return
+    for fq in sorted(found):
+        r = found[fq]
+        f = r["f"]
+        if r["alias"] or r["fresh"] or r["unknown"]:
+            t = "a block is attached through a node of its own"
+            if r["alias"]:
+                ctx.ob("R9", "ALIAS", f, t, False, f"the node added to the parent is the root node of the block given, not a new one: {sorted(set(r['alias']))}"
+                       + (f" (renamed in place: {sorted(set(r['renames']))})" if r["renames"] else "") + " - every place the same block object is attached to holds that one object, "
+                       "so the place name written last (transform-x64 after transform-x86, server after client) names all of them and the built tree / text / dictionary view differ from the parsed profile")
+            elif r["unknown"]:
+                ctx.undecided("R9", "ALIAS", f, t, f"cannot tell what is added to the parent: {sorted(set(r['unknown']))}")
+            else:
+                ctx.ob("R9", "ALIAS", f, t, True, f"{r['fresh']} node(s) added to the parent, each a new object made at the attachment (the children list may be shared, the node that carries the place name is not)")
+        ctx.ob("R9", "ALIAS", f, "the block given is left as it was", not r["mut"],
+               "no write goes into the tree of the block that is given" if not r["mut"] else
+               f"attaching changes the statements of the block that is given: {sorted(set(r['mut']))} - the same block object attached a second time contributes other statements than the first time")
